@@ -452,11 +452,23 @@ func runC07Round(w *World, round int) {
 		resign(e.b, kA, "otherchain")
 		return "", false
 	})
-	mut("provider-chain-id", func(e *dvEvidence) (string, bool) { resign(e.a, kA, "provider"); resign(e.b, kA, "provider"); return "", false })
+	mut("provider-chain-id", func(e *dvEvidence) (string, bool) {
+		resign(e.a, kA, "provider")
+		resign(e.b, kA, "provider")
+		return "", false
+	})
 	mut("height-differs", func(e *dvEvidence) (string, bool) { e.b.Height++; resign(e.b, kA, chainA); return "", false })
 	mut("round-differs", func(e *dvEvidence) (string, bool) { e.b.Round++; resign(e.b, kA, chainA); return "", false })
-	mut("type-differs", func(e *dvEvidence) (string, bool) { e.b.Type = cmtproto.PrevoteType; resign(e.b, kA, chainA); return "", false })
-	mut("identical-block-ids", func(e *dvEvidence) (string, bool) { e.b.BlockID = e.a.BlockID; resign(e.b, kA, chainA); return "", false })
+	mut("type-differs", func(e *dvEvidence) (string, bool) {
+		e.b.Type = cmtproto.PrevoteType
+		resign(e.b, kA, chainA)
+		return "", false
+	})
+	mut("identical-block-ids", func(e *dvEvidence) (string, bool) {
+		e.b.BlockID = e.a.BlockID
+		resign(e.b, kA, chainA)
+		return "", false
+	})
 	mut("signature-bit-flip-a", func(e *dvEvidence) (string, bool) { e.a.Signature[3] ^= 1; return "", false })
 	mut("signature-bit-flip-b", func(e *dvEvidence) (string, bool) { e.b.Signature[17] ^= 0x80; return "", false })
 	mut("signed-by-other-key", func(e *dvEvidence) (string, bool) {
@@ -516,6 +528,8 @@ func runC07Round(w *World, round int) {
 		}
 	}
 	_ = chainB
+	// ---------- a signer that has left the bonded set since (unbonding, stake still at risk) is still punished
+	w.unbondingSignerCase(la, chainA)
 	// ---------- misbehaviour (light client attack): invalid variants, then a valid one
 	w.misbehaviourCases(la, lb, chainA)
 	// ---------- valid double votes
@@ -683,4 +697,72 @@ func (w *World) misbehaviourCases(la, lb *Link, chainA string) {
 		}
 	}
 	w.submitEvidence(c07case{name: fmt.Sprintf("lca-valid signers=%s", bucket(len(signers))), msg: mk(real, forged, la.ProvClient), valid: true, signers: signers, consumer: la.CID})
+}
+
+// unbondingSignerCase: evidence for an infraction at a height at which the validator was in the consumer's set; before the
+// evidence is submitted the validator removes its self-delegation (jailed, status Unbonding). The stake is still at risk.
+func (w *World) unbondingSignerCase(la *Link, chainA string) {
+	c := la.C
+	h := c.Height() - 1
+	vs := c.ValsAt[h]
+	var victim *Val
+	var key *ConsKey
+	pre := w.readVStates(w.P.Ctx())
+	alive := 0
+	for _, st := range pre {
+		if st.Status == stakingtypes.Bonded && !st.Jailed {
+			alive++
+		}
+	}
+	if alive < 4 {
+		return
+	}
+	for _, cv := range vs.Validators {
+		k := w.keyByAddr(cv.Address)
+		if k == nil {
+			continue
+		}
+		pc, ok := w.providerConsOf(la.CID, k)
+		if !ok {
+			continue
+		}
+		st := pre[pc]
+		if !st.Found || st.Tombstoned || st.Jailed || st.Status != stakingtypes.Bonded {
+			continue
+		}
+		for _, v := range w.createdVals() {
+			if consHex(v.ConsAddr()) == pc {
+				victim, key = v, k
+			}
+		}
+		if victim != nil {
+			break
+		}
+	}
+	if victim == nil {
+		return
+	}
+	e := w.validDV(c, key, chainA, "unbonding-signer")
+	// the operator removes its whole self-delegation: the validator is jailed and starts unbonding
+	have := w.delegationTokens(victim.Oper, victim)
+	if have <= 0 {
+		return
+	}
+	w.Tick()
+	outs := w.ProviderStep([]TxSpec{{Signer: victim.Oper, Msgs: []sdk.Msg{MsgUndelegate(victim.Oper, victim, have)}, Tag: "undelegate"}}, true, nil)
+	if len(outs) != 1 || !outs[0].OK() {
+		return
+	}
+	for i := 0; i < 3; i++ {
+		w.Step++
+		w.Tick()
+		w.ProviderStep(nil, false, nil)
+		w.ConsumersStep()
+	}
+	st := w.readVStates(w.P.Ctx())[consHex(victim.ConsAddr())]
+	if !st.Found || st.Status != stakingtypes.Unbonding {
+		w.Event("C07", "unbonding-signer-case-not-reached")
+		return
+	}
+	w.submitEvidence(c07case{name: "dv-valid:signer-unbonding-since", msg: e.msg(w.Accts["stranger"], la.CID), valid: true, signers: []string{consHex(victim.ConsAddr())}, consumer: la.CID})
 }
